@@ -49,6 +49,69 @@ func flatten(v interface{}) []Term {
 }
 
 func (c *FnCtx) call(fr *frame, st *State, guard string, site ssa.Instruction, cc *ssa.CallCommon) interface{} {
+	res := c.call0(fr, st, guard, site, cc)
+	if fr.top && fr.con != nil && len(fr.con.AfterCall) > 0 {
+		name := ""
+		if cc.IsInvoke() {
+			if n, ok := cc.Value.Type().(*types.Named); ok {
+				name = n.Obj().Name() + "." + cc.Method.Name()
+			}
+		} else if sc := cc.StaticCallee(); sc != nil {
+			k := funcKey(sc)
+			name = k[strings.LastIndex(k, "::")+2:]
+		}
+		if inf := fr.con.AfterCall[name]; inf != nil {
+			c.interfere(fr, st, inf)
+		}
+	}
+	return res
+}
+
+// interfere: havoc the listed locations and assume the rely relation (old() = state before the havoc).
+func (c *FnCtx) interfere(fr *frame, st *State, inf *Interference) {
+	pre := st.clone()
+	envPre := c.newEnv(fr, pre)
+	byRegion := map[string][]string{}
+	whole := map[string]bool{}
+	for _, h := range inf.Havoc {
+		for _, l := range c.modLocs(envPre, h) {
+			if l.Ref == "" {
+				whole[l.Region] = true
+			} else {
+				byRegion[l.Region] = append(byRegion[l.Region], l.Ref)
+			}
+		}
+	}
+	var rs []string
+	for r := range byRegion {
+		rs = append(rs, r)
+	}
+	for r := range whole {
+		if _, ok := byRegion[r]; !ok {
+			rs = append(rs, r)
+		}
+	}
+	sort.Strings(rs)
+	for _, r := range rs {
+		oldv := c.get(st, r)
+		c.havoc(st, r)
+		if whole[r] || !strings.HasPrefix(c.regSort[r], "(Array Int ") {
+			continue
+		}
+		var ne []string
+		for _, ref := range byRegion[r] {
+			ne = append(ne, fmt.Sprintf("(not (= q_r %s))", ref))
+		}
+		nv := c.get(st, r)
+		c.assume("", fmt.Sprintf("(forall ((q_r Int)) (! (=> (and %s) (= (select %s q_r) (select %s q_r))) :pattern ((select %s q_r))))", strings.Join(ne, " "), nv, oldv, nv))
+	}
+	env := c.newEnv(fr, st)
+	env.old = pre
+	env.oldAlloc = pre.alloc
+	c.assume(st.g, c.evalBool(env, inf.Rely.E))
+}
+
+func (c *FnCtx) call0(fr *frame, st *State, guard string, site ssa.Instruction, cc *ssa.CallCommon) interface{} {
 	// builtin
 	if b, ok := cc.Value.(*ssa.Builtin); ok {
 		return c.builtin(fr, st, st.g, site, b, cc)
@@ -148,7 +211,7 @@ func (c *FnCtx) invoke(fr *frame, st *State, site ssa.Instruction, cc *ssa.CallC
 		return c.resultVal(st, cc.Signature(), "errstr")
 	}
 	sig := cc.Method.Type().(*types.Signature)
-	c.atCall(fr, st, iname+"."+cc.Method.Name())
+	c.atCall(fr, st, iname+"."+cc.Method.Name(), append([]interface{}{c.valIn(fr, cc.Value)}, c.argVals(fr, cc)...)...)
 	if con := c.eng.contractFor(key, c.prof); con != nil {
 		names := []string{"self"}
 		for i := 0; i < sig.Params().Len(); i++ {
@@ -171,6 +234,11 @@ func (c *FnCtx) invoke(fr *frame, st *State, site ssa.Instruction, cc *ssa.CallC
 	if c.prof.DefaultHavoc {
 		return c.havocCall(fr, st, sig, sanitize(cc.Method.Name()))
 	}
+	if !strings.HasPrefix(ipkg, libPrefix) {
+		// method of a standard-library interface (os.FileInfo, io.Reader, ...): opaque, no effect on the
+		// repository's heap (listed in the trusted base)
+		return c.noopCall(st, sig)
+	}
 	c.fail("interface call %s without contract in %s", key, funcKey(fr.fn))
 	return nil
 }
@@ -188,11 +256,19 @@ func (c *FnCtx) applyContract(fr *frame, st *State, sig *types.Signature, con *C
 		}
 	}
 	sub := &frame{fn: fr.fn, con: con, params: params, lets: map[string]Term{}, oldState: pre}
-	env := &Env{c: c, fr: sub, pkg: pkg, st: pre, old: pre, names: map[string]Term{}, params: params, lets: sub.lets, bind: map[string]Term{}, oldAlloc: pre.alloc}
+	env := &Env{c: c, fr: sub, pkg: pkg, st: pre, old: pre, names: map[string]Term{}, params: params, lets: sub.lets, bind: map[string]Term{}, oldAlloc: pre.alloc, callee: true}
 	for _, l := range con.Lets {
 		sub.lets[l.Label] = env.eval(l.E, "")
 	}
 	short := key[strings.LastIndex(key, "::")+2:]
+	// vacuity guard for the assumed postcondition: the path must stay feasible across the call
+	// (a contradictory contract or model would make everything after the call provable)
+	var preCover *Obl
+	if !c.nocover && len(con.Ensures)+len(con.AssumeEnsures) > 0 {
+		preCover = c.oblige("cover", fmt.Sprintf("cover#before@%s@%s", short, shortPos(c.curPos)), guard, "false", "call reachable")
+		preCover.Expect = "sat"
+		c.obls = c.obls[:len(c.obls)-1] // solved on demand only (when the post-call cover is refuted)
+	}
 	for i, r := range con.Requires {
 		c.oblige("requires", fmt.Sprintf("requires@%s#%s@%s", short, clauseName(r, i), shortPos(c.curPos)), guard, c.evalBool(env, r.E), r.Src)
 	}
@@ -209,7 +285,9 @@ func (c *FnCtx) applyContract(fr *frame, st *State, sig *types.Signature, con *C
 			if keep[k] || strings.HasPrefix(k, "L_") {
 				continue
 			}
-			if !c.prof.isTracked(k) || c.prof.DefaultHavoc == false {
+			// "modifies *": everything the contract does not preserve, ghosts included; only the
+			// profile's tracked heap regions (immutable-by-assumption fields) survive
+			if strings.HasPrefix(k, "G_") || !c.prof.isTracked(k) || c.prof.DefaultHavoc == false {
 				ks = append(ks, k)
 			}
 		}
@@ -267,6 +345,11 @@ func (c *FnCtx) applyContract(fr *frame, st *State, sig *types.Signature, con *C
 	}
 	for _, e := range con.AssumeEnsures {
 		c.assume(guard, c.evalBool(&env2, e.E))
+	}
+	if preCover != nil {
+		o := c.oblige("cover", fmt.Sprintf("cover#after@%s@%s", short, shortPos(c.curPos)), guard, "false", "path feasible after the call (postcondition not contradictory)")
+		o.Expect = "sat"
+		o.Pre = preCover
 	}
 	return res
 }
@@ -429,7 +512,31 @@ func (c *FnCtx) callWriteSet(cc *ssa.CallCommon) (regs []string, all bool) {
 	con := c.eng.contractFor(key, c.prof)
 	if con != nil && !con.Inline {
 		if con.ModAll {
-			return nil, true
+			// everything untracked, plus every ghost the contract does not explicitly preserve
+			keep := map[string]bool{}
+			if len(con.Preserves) > 0 {
+				dummy := &frame{fn: callee, con: con, params: map[string]Term{}, lets: map[string]Term{}}
+				for _, p := range callee.Params {
+					dummy.params[p.Name()] = Term{S: "0", Sort: c.sortOf(p.Type()), T: p.Type()}
+				}
+				st := &State{ver: map[string]string{}, alloc: "0", names: map[string]Term{}}
+				env := &Env{c: c, fr: dummy, pkg: callee.Pkg.Pkg, st: st, old: st, names: st.names, params: dummy.params, lets: dummy.lets, bind: map[string]Term{}}
+				for _, pn := range con.Preserves {
+					func() {
+						defer func() { recover() }()
+						for _, l := range c.modLocs(env, pn) {
+							keep[l.Region] = true
+						}
+					}()
+				}
+			}
+			var gs []string
+			for g := range c.eng.ghosts {
+				if r, ok := c.ghostRegion(g); ok && !keep[r] {
+					gs = append(gs, r)
+				}
+			}
+			return gs, true
 		}
 		// regions named by modifies (evaluated syntactically with dummy env)
 		dummy := &frame{fn: callee, con: con, params: map[string]Term{}, lets: map[string]Term{}}
@@ -504,6 +611,9 @@ func (c *FnCtx) atCall(fr *frame, st *State, callee string, args ...interface{})
 		}
 	}
 	for i, cl := range cls {
-		c.oblige("at-call", fmt.Sprintf("at-call@%s#%s@%s", callee, clauseName(cl, i), shortPos(c.curPos)), st.g, c.evalBool(env, cl.E), cl.Src)
+		goal := c.evalBool(env, cl.E)
+		c.oblige("at-call", fmt.Sprintf("at-call@%s#%s@%s", callee, clauseName(cl, i), shortPos(c.curPos)), st.g, goal, cl.Src)
+		// a proved cut point: the fact may be used from here on
+		c.assume(st.g, goal)
 	}
 }
